@@ -127,6 +127,9 @@ class CardanoShelley:
         Returns:
             Bip44Base object: Bip44Base object
         """
+        # The staking key is derived at construction: honour a later conversion of the wrapped object to public-only
+        if self.m_bip_obj.IsPublicOnly() and not self.m_bip_sk_obj.IsPublicOnly():
+            self.m_bip_sk_obj.Bip32Object().ConvertToPublic()
         return self.m_bip_sk_obj
 
     def IsPublicOnly(self) -> bool:
